@@ -42,7 +42,21 @@ class Untranslatable(Exception):
 
 
 LEAN_TYPE = {'ord': 'α', 'val': 'Val', 'bool': 'Bool', 'rat': 'Rat', 'optrat': 'Option Rat',
-             'optx': 'Option Unit', 'str': 'String', 'vals': 'List Val'}
+             'optx': 'Option Unit', 'str': 'String', 'vals': 'List Val', 'nat': 'Nat', 'data': 'Data',
+             'strs': 'List String'}
+
+
+def node_path(node):
+    """textual access path of Name / Attribute / Subscript chains, e.g. self._in['_'][0]"""
+    if isinstance(node, ast.Name):
+        return node.id
+    if isinstance(node, ast.Attribute):
+        return node_path(node.value) + '.' + node.attr
+    if isinstance(node, ast.Subscript):
+        key = node.slice
+        if isinstance(key, ast.Constant):
+            return node_path(node.value) + '[' + repr(key.value) + ']'
+    raise Untranslatable(ast.dump(node))
 
 
 class Tr:
@@ -52,16 +66,7 @@ class Tr:
 
     # ---- access paths -------------------------------------------------------------
     def path(self, node):
-        """textual access path of Name / Attribute / Subscript chains, e.g. self._in['_'][0]"""
-        if isinstance(node, ast.Name):
-            return node.id
-        if isinstance(node, ast.Attribute):
-            return self.path(node.value) + '.' + node.attr
-        if isinstance(node, ast.Subscript):
-            key = node.slice
-            if isinstance(key, ast.Constant):
-                return self.path(node.value) + '[' + repr(key.value) + ']'
-        raise Untranslatable(ast.dump(node))
+        return node_path(node)
 
     # ---- expressions --------------------------------------------------------------
     def truthy(self, text, typ):
@@ -139,6 +144,10 @@ class Tr:
                 sym = {ast.Add: '+', ast.Sub: '-', ast.Mult: '*', ast.Div: '/'}.get(type(node.op))
                 if sym:
                     return (f'({a} {sym} {b})', 'rat')
+            if aty == bty == 'nat':
+                sym = {ast.Add: '+', ast.Mult: '*'}.get(type(node.op))
+                if sym:
+                    return (f'({a} {sym} {b})', 'nat')
             if aty == 'nat' and bty == 'rat' and isinstance(node.op, ast.Mod) and isinstance(node.right, ast.Constant):
                 return (f'({a} % {node.right.value})', 'nat')
             if aty == bty == 'str' and isinstance(node.op, ast.Add):
@@ -164,6 +173,26 @@ class Tr:
                     if (xty == 'vals' and isinstance(gen.target, ast.Name) and len(gen.ifs) == 1
                             and isinstance(gen.ifs[0], ast.Name) and gen.ifs[0].id == gen.target.id):
                         return (f'(({xs}).filter Val.truthy).length', 'nat')
+            if isinstance(f, ast.Name) and f.id == 'len' and len(node.args) == 1:
+                key = 'len(' + self.path(node.args[0]) + ')'
+                if key in env:
+                    return env[key]
+            if (isinstance(f, ast.Attribute) and f.attr == 'get' and len(node.args) == 2
+                    and isinstance(node.args[0], ast.Constant) and isinstance(node.args[0].value, str)):
+                t, ty = self.expr(f.value, env)
+                dflt, dty = self.expr(node.args[1], env)
+                if ty == 'data' and dty == 'val':
+                    return (f'((Data.get? {t} "{node.args[0].value}").getD {dflt})', 'val')
+            try:
+                fpath = self.path(f)
+            except Untranslatable:
+                fpath = None
+            calls = self.t.get('calls', {})
+            if fpath in calls and not node.keywords:
+                lean, rty, atys = calls[fpath]
+                args = [self.expr(a, env) for a in node.args]
+                if [ty for _, ty in args] == list(atys):
+                    return ('(' + lean + ''.join(' ' + t for t, _ in args) + ')', rty)
             raise Untranslatable('call ' + ast.dump(node)[:120])
         raise Untranslatable(ast.dump(node)[:120])
 
@@ -207,6 +236,11 @@ class Tr:
                     ast.GtE: f'decide ({b} ≤ {a})', ast.Eq: f'({a} == {b})'}[type(op)]
         if aty == bty == 'val' and isinstance(op, ast.Eq):
             return f'Val.pyEq {a} {b}'
+        if aty == 'optrat' and bty == 'rat' and isinstance(op, ast.Eq):
+            return f'({a} == some {b})'        # None == number is False
+        if aty == bty == 'nat':
+            return {ast.Lt: f'decide ({a} < {b})', ast.LtE: f'decide ({a} ≤ {b})', ast.Gt: f'decide ({b} < {a})',
+                    ast.GtE: f'decide ({b} ≤ {a})', ast.Eq: f'({a} == {b})'}[type(op)]
         raise Untranslatable(f'comparison {type(op).__name__} on {aty}, {bty}')
 
     # ---- statements ---------------------------------------------------------------
@@ -259,6 +293,17 @@ class Tr:
             self.rtypes.add(ty)
             body = '  ' + t
         else:
+            for arg, dflt in zip(fn_node.args.kwonlyargs, fn_node.args.kw_defaults):
+                spec = self.t.get('defaults', {}).get(arg.arg)
+                if spec is not None:
+                    if dflt is None:
+                        raise Untranslatable(f'{arg.arg}: no default in the signature')
+                    d, dty = self.expr(dflt, env)
+                    if dty != 'rat':
+                        raise Untranslatable(f'default of {arg.arg}: {dty}')
+                    env[arg.arg] = (f'({spec}.getD {d})', 'rat')
+                elif arg.arg in self.t.get('required', ()) and dflt is not None:
+                    raise Untranslatable(f'{arg.arg}: is no longer a required argument')
             body = self.block_with_assign_merge(fn_node.body, env)
         if len(self.rtypes) != 1:
             raise Untranslatable(f'return types {self.rtypes}')
@@ -268,6 +313,234 @@ class Tr:
         """`if c: x = a  else: x = b` followed by code using x  ==>  both branches continue with the rest
         (the generic rule of `block`), so nothing special is needed; kept as a hook"""
         return self.block(stmts, env, 1)
+
+
+class TrEdit:
+    """
+    Second translation scheme: the edit functions that the `DataEdit` operations append to `_editlist`
+    (an inner `def _edit(data)` or a `lambda data: …`).  The mapping `data` is threaded through the
+    statements; the result is `Except Filters.Stop Data`: `.ok d` = the mapping returned, `.error .reject` =
+    `None` returned (also by falling off the end), `.error (.raise .keyError)` = a failed lookup / `del`.
+
+    statements   data[K] = data[K2] | data[K] = <value name> | NAME = data[K] | NAME = func(NAME) (the user's
+                 function, modelled as `Val → ModRes`) | del data[K] | data.pop(K, None) | return data |
+                 return None | if T: … else: … | for NAME in <strs name> / list(data): …
+    tests        NAME not in <strs name> | NAME in <strs name> | NAME is self.REJECT | NAME is self.DELETE
+    expressions  {**M, **M2} | {**M, K: V} | {K: V, **M}  (M: a mapping name, V: a value name)
+    """
+    KEYERR = '.error (.raise .keyError)'
+
+    def __init__(self, target):
+        self.t = target
+        self.env = dict(target['names'])        # python name/path -> (lean, type)
+        self.fresh = 0
+
+    def path(self, node):
+        return node_path(node)
+
+    def name_of(self, node, types):
+        p = self.path(node)
+        if p in self.env and self.env[p][1] in types:
+            return self.env[p]
+        raise Untranslatable(f'{p}: expected one of {types}')
+
+    def key(self, node):
+        if isinstance(node, ast.Constant) and isinstance(node.value, str):
+            return '"' + node.value + '"'
+        return self.name_of(node, ('str',))[0]
+
+    def value(self, node):
+        t, ty = self.name_of(node, ('val', 'modres'))
+        return f'(mrVal {t})' if ty == 'modres' else t
+
+    def is_data_sub(self, node):
+        return (isinstance(node, ast.Subscript) and isinstance(node.value, ast.Name) and node.value.id == 'data')
+
+    def display(self, node):
+        """dict display -> Data expression"""
+        acc = None
+        for k, v in zip(node.keys, node.values):
+            if k is None:                   # **mapping
+                m = self.name_of(v, ('data',))[0]
+                acc = m if acc is None else f'(Filters.update {acc} {m})'
+            else:
+                acc = f'(Data.set {acc if acc is not None else "([] : Data)"} {self.key(k)} {self.value(v)})'
+        if acc is None:
+            acc = '([] : Data)'
+        return acc
+
+    def test(self, node):
+        if isinstance(node, ast.Compare) and len(node.ops) == 1:
+            op, right = node.ops[0], node.comparators[0]
+            if isinstance(op, (ast.In, ast.NotIn)):
+                k = self.key(node.left)
+                xs = self.name_of(right, ('strs',))[0]
+                return f'(!({xs}).contains {k})' if isinstance(op, ast.NotIn) else f'({xs}).contains {k}'
+            if isinstance(op, (ast.Is, ast.IsNot)):
+                r = self.name_of(node.left, ('modres',))[0]
+                which = {'self.REJECT': 'mrIsReject', 'self.DELETE': 'mrIsDelete'}.get(self.path(right))
+                if which:
+                    return f'(!{which} {r})' if isinstance(op, ast.IsNot) else f'{which} {r}'
+        raise Untranslatable('test ' + ast.dump(node)[:120])
+
+    def block(self, stmts, fall, ind):
+        """`fall`: the Lean term for leaving the statement list at its end"""
+        pad = '  ' * ind
+        if not stmts:
+            return pad + fall
+        s, rest = stmts[0], stmts[1:]
+        if isinstance(s, ast.Expr) and isinstance(s.value, ast.Constant) and isinstance(s.value.value, str):
+            return self.block(rest, fall, ind)
+        if isinstance(s, ast.Return):
+            v = s.value
+            if v is None or (isinstance(v, ast.Constant) and v.value is None):
+                return pad + '.error .reject'
+            if isinstance(v, ast.Name) and v.id == 'data':
+                return pad + '.ok data'
+            if isinstance(v, ast.Dict):
+                return pad + '.ok ' + self.display(v)
+            raise Untranslatable('return ' + ast.dump(v)[:100])
+        if isinstance(s, ast.Assign) and len(s.targets) == 1:
+            tgt, val = s.targets[0], s.value
+            if self.is_data_sub(tgt):
+                k = self.key(tgt.slice)
+                if self.is_data_sub(val):
+                    k2 = self.key(val.slice)
+                    self.fresh += 1
+                    v = f'v{self.fresh}'
+                    return (f'{pad}match Data.get? data {k2} with\n{pad}| none => {self.KEYERR}\n'
+                            f'{pad}| some {v} =>\n{pad}  let data : Data := Data.set data {k} {v}\n'
+                            + self.block(rest, fall, ind + 1))
+                return f'{pad}let data : Data := Data.set data {k} {self.value(val)}\n' + self.block(rest, fall, ind)
+            if isinstance(tgt, ast.Name):
+                if self.is_data_sub(val):
+                    k2 = self.key(val.slice)
+                    self.env[tgt.id] = (tgt.id, 'val')
+                    return (f'{pad}match Data.get? data {k2} with\n{pad}| none => {self.KEYERR}\n'
+                            f'{pad}| some {tgt.id} =>\n' + self.block(rest, fall, ind + 1))
+                if (isinstance(val, ast.Call) and len(val.args) == 1 and not val.keywords
+                        and self.env.get(self.path(val.func), (None, None))[1] == 'modfunc'):
+                    f = self.env[self.path(val.func)][0]
+                    a = self.name_of(val.args[0], ('val',))[0]
+                    self.env[tgt.id] = (tgt.id, 'modres')
+                    return (f'{pad}match {f} {a} with\n{pad}| .raise e => .error (.raise e)\n'
+                            f'{pad}| {tgt.id} =>\n' + self.block(rest, fall, ind + 1))
+            raise Untranslatable('assignment ' + ast.dump(s)[:120])
+        if isinstance(s, ast.Delete) and len(s.targets) == 1 and self.is_data_sub(s.targets[0]):
+            k = self.key(s.targets[0].slice)
+            return (f'{pad}if Data.has data {k} then\n{pad}  let data : Data := Data.erase data {k}\n'
+                    + self.block(rest, fall, ind + 1) + f'\n{pad}else {self.KEYERR}')
+        if (isinstance(s, ast.Expr) and isinstance(s.value, ast.Call) and isinstance(s.value.func, ast.Attribute)
+                and s.value.func.attr == 'pop' and self.path(s.value.func.value) == 'data'
+                and len(s.value.args) == 2 and isinstance(s.value.args[1], ast.Constant)
+                and s.value.args[1].value is None):
+            k = self.key(s.value.args[0])
+            return f'{pad}let data : Data := Data.erase data {k}\n' + self.block(rest, fall, ind)
+        if isinstance(s, ast.If):
+            c = self.test(s.test)
+            then_ = self.block(list(s.body) + ([] if returns(s.body) else rest), fall, ind + 1)
+            else_ = self.block(list(s.orelse) + ([] if returns(s.orelse) else rest), fall, ind + 1)
+            return f'{pad}if {c} then\n{then_}\n{pad}else\n{else_}'
+        if isinstance(s, ast.For) and isinstance(s.target, ast.Name) and not s.orelse:
+            it = s.iter
+            if (isinstance(it, ast.Call) and getattr(it.func, 'id', None) == 'list' and len(it.args) == 1
+                    and self.path(it.args[0]) == 'data'):
+                xs = '(data.map (·.1))'             # a snapshot of the keys
+            else:
+                xs = self.name_of(it, ('strs',))[0]
+            var = s.target.id
+            self.env[var] = (var, 'str')
+            body = self.block(list(s.body), '.ok data', ind + 2)
+            return (f'{pad}match List.foldlM (m := Except Stop) (fun (data : Data) ({var} : String) =>\n{body}) data {xs} with\n'
+                    f'{pad}| .error e => .error e\n{pad}| .ok data =>\n' + self.block(rest, fall, ind + 1))
+        raise Untranslatable('statement ' + ast.dump(s)[:120])
+
+    def function(self, node):
+        if isinstance(node, ast.Lambda):
+            if not isinstance(node.body, ast.Dict):
+                raise Untranslatable('lambda body ' + ast.dump(node.body)[:100])
+            return '  .ok ' + self.display(node.body)
+        return self.block(list(node.body), '.error .reject', 1)
+
+
+def find_edit(method):
+    """the function appended to `self._editlist` by a DataEdit operation: `def _edit(data)` or a lambda"""
+    fn = fn_ast(getattr(method, '__wrapped__', method))
+    for node in ast.walk(fn):
+        if (isinstance(node, ast.Call) and isinstance(node.func, ast.Attribute) and node.func.attr == 'append'
+                and node_path(node.func.value) == 'self._editlist' and len(node.args) == 1):
+            arg = node.args[0]
+            if isinstance(arg, ast.Lambda):
+                if [a.arg for a in arg.args.args] != ['data']:
+                    raise Untranslatable('lambda parameters')
+                return arg
+            if isinstance(arg, ast.Name):
+                for n2 in ast.walk(fn):
+                    if isinstance(n2, ast.FunctionDef) and n2.name == arg.id:
+                        if [a.arg for a in n2.args.args] != ['data']:
+                            raise Untranslatable('parameters of the edit function')
+                        return n2
+    raise Untranslatable(f'no edit function in {method}')
+
+
+def edit_targets():
+    D = filters.DataEdit
+    S, V, L, M = 'str', 'val', 'strs', 'data'
+    return [
+        dict(name='editAdd', doc='DataEdit.add', node=find_edit(D.add),
+             params=[('data', 'Data'), ('kwargs', 'Data')], names={'data': ('data', M), 'kwargs': ('kwargs', M)}),
+        dict(name='editAddOutput', doc='DataEdit.add_output (`out`: the source block\'s output at the call)',
+             node=find_edit(D.add_output), params=[('data', 'Data'), ('key', 'String'), ('out', 'Val')],
+             names={'data': ('data', M), 'key': ('key', S), 'src.block.output': ('out', V)}),
+        dict(name='editCopy', doc='DataEdit.copy', node=find_edit(D.copy),
+             params=[('data', 'Data'), ('src', 'String'), ('dst', 'String')],
+             names={'data': ('data', M), 'src': ('src', S), 'dst': ('dst', S)}),
+        dict(name='editDelete', doc='DataEdit.delete', node=find_edit(D.delete),
+             params=[('data', 'Data'), ('args', 'List String')], names={'data': ('data', M), 'args': ('args', L)}),
+        dict(name='editModify', doc='DataEdit.modify (`func`: the user\'s function)', node=find_edit(D.modify),
+             params=[('data', 'Data'), ('key', 'String'), ('func', 'Val → ModRes')],
+             names={'data': ('data', M), 'key': ('key', S), 'func': ('func', 'modfunc')}),
+        dict(name='editPermit', doc='DataEdit.permit', node=find_edit(D.permit),
+             params=[('data', 'Data'), ('args', 'List String')], names={'data': ('data', M), 'args': ('args', L)}),
+        dict(name='editRename', doc='DataEdit.rename', node=find_edit(D.rename),
+             params=[('data', 'Data'), ('src', 'String'), ('dst', 'String')],
+             names={'data': ('data', M), 'src': ('src', S), 'dst': ('dst', S)}),
+        dict(name='editSetdefault', doc='DataEdit.setdefault', node=find_edit(D.setdefault),
+             params=[('data', 'Data'), ('kwargs', 'Data')], names={'data': ('data', M), 'kwargs': ('kwargs', M)}),
+    ]
+
+
+def write_if_changed(outfile, text):
+    try:
+        with open(outfile, encoding='utf-8') as f:
+            if f.read() == text:
+                return
+    except FileNotFoundError:
+        pass
+    tmp = outfile + '.tmp'
+    with open(tmp, 'w', encoding='utf-8') as f:
+        f.write(text)
+    os.replace(tmp, outfile)
+
+
+def main_edit(outfile):
+    L = ['/- GENERATED by tools/py2lean.py from the Python source of edzed (filters.DataEdit) -- do not edit -/',
+         'import EdzedModel.Filters', '', 'namespace Edzed.Gen.TrF', 'open Edzed.Filters', '',
+         '/-- `replacement is self.REJECT` -/',
+         'def mrIsReject : ModRes → Bool | .reject => true | _ => false',
+         '/-- `replacement is self.DELETE` -/',
+         'def mrIsDelete : ModRes → Bool | .delete => true | _ => false',
+         '/-- the object returned by the user\'s function, when it is neither of the two markers -/',
+         'def mrVal : ModRes → Val | .value v => v | _ => Val.none', '']
+    for t in edit_targets():
+        body = TrEdit(t).function(t['node'])
+        params = ' '.join(f'({n} : {ty})' for n, ty in t['params'])
+        L.append(f"/-- translated from `{t['doc']}`: the function appended to `_editlist` -/")
+        L.append(f"def {t['name']} {params} : Except Stop Data :=")
+        L.append(body)
+        L.append('')
+    L.append('end Edzed.Gen.TrF')
+    write_if_changed(outfile, '\n'.join(L) + '\n')
 
 
 def trim(stmts):
@@ -320,6 +593,25 @@ def find_assign_value(fn, attr):
     raise Untranslatable(f'no assignment to self.{attr}')
 
 
+def find_local_assign(fn, name):
+    """the right-hand side of the first `<name> = …` (a local variable) in a function"""
+    for node in ast.walk(fn_ast(fn)):
+        if (isinstance(node, ast.Assign) and len(node.targets) == 1 and isinstance(node.targets[0], ast.Name)
+                and node.targets[0].id == name):
+            return ast.Lambda(args=None, body=node.value)
+    raise Untranslatable(f'no assignment to {name}')
+
+
+def find_raise_test(fn, exc):
+    """the condition of the first `if …: raise <exc>(…)` of a function"""
+    for node in fn_ast(fn).body:
+        if isinstance(node, ast.If) and node.body and isinstance(node.body[0], ast.Raise) and not node.orelse:
+            r = node.body[0].exc
+            if isinstance(r, ast.Call) and getattr(r.func, 'id', None) == exc:
+                return ast.Lambda(args=None, body=node.test)
+    raise Untranslatable(f'no `if …: raise {exc}` at the top level')
+
+
 def targets():
     ordp = [('lt', 'α → α → Bool'), ('le', 'α → α → Bool')]
     return [
@@ -353,6 +645,33 @@ def targets():
              node=fn_ast(sblocks1.Counter._setmod), ignore=('set_output',),
              params=[('mod', 'Option Rat'), ('value', 'Rat')],
              names={'self._mod': ('mod', 'optrat'), 'value': ('value', 'rat')}),
+        dict(name='counterInc', doc='sblocks1.Counter._event_inc (the value returned)',
+             node=fn_ast(sblocks1.Counter._event_inc), defaults={'amount': 'amount'},
+             calls={'self._setmod': ('counterSetmod mod', 'rat', ['rat'])},
+             params=[('mod', 'Option Rat'), ('output', 'Rat'), ('amount', 'Option Rat')],
+             names={'self._output': ('output', 'rat')}),
+        dict(name='counterDec', doc='sblocks1.Counter._event_dec (the value returned)',
+             node=fn_ast(sblocks1.Counter._event_dec), defaults={'amount': 'amount'},
+             calls={'self._setmod': ('counterSetmod mod', 'rat', ['rat'])},
+             params=[('mod', 'Option Rat'), ('output', 'Rat'), ('amount', 'Option Rat')],
+             names={'self._output': ('output', 'rat')}),
+        dict(name='counterPut', doc='sblocks1.Counter._event_put (the value returned; `value` has no default)',
+             node=fn_ast(sblocks1.Counter._event_put), required=('value',),
+             calls={'self._setmod': ('counterSetmod mod', 'rat', ['rat'])},
+             params=[('mod', 'Option Rat'), ('value', 'Rat')], names={'value': ('value', 'rat')}),
+        dict(name='counterReset', doc='sblocks1.Counter._event_reset (the value returned)',
+             node=fn_ast(sblocks1.Counter._event_reset),
+             calls={'self._setmod': ('counterSetmod mod', 'rat', ['rat'])},
+             params=[('mod', 'Option Rat'), ('initdef', 'Rat')], names={'self.initdef': ('initdef', 'rat')}),
+        dict(name='counterRefusesModulo', doc='sblocks1.Counter.__init__: if …: raise ValueError("modulo must not be zero")',
+             node=find_raise_test(sblocks1.Counter.__init__, 'ValueError'),
+             params=[('modulo', 'Option Rat')], names={'modulo': ('modulo', 'optrat')}),
+        dict(name='evalLimit', doc='simulator.Circuit._simulate: eval_limit = …',
+             node=find_local_assign(simulator.Circuit._simulate, 'eval_limit'),
+             params=[('maxEvalsPerBlock', 'Nat'), ('nBlocks', 'Nat')],
+             names={'_MAX_EVALS_PER_BLOCK': ('maxEvalsPerBlock', 'nat'), 'len(self._blocks)': ('nBlocks', 'nat')}),
+        dict(name='notFromUndef', doc='filters.not_from_undef', node=fn_ast(filters.not_from_undef),
+             params=[('data', 'Data')], names={'data': ('data', 'data')}),
         dict(name='isReady', doc='simulator.Circuit.is_ready', node=fn_ast(simulator.Circuit.is_ready),
              params=[('simtask', 'Option Unit'), ('error', 'Option Unit')],
              names={'self._simtask': ('simtask', 'optx'), 'self._error': ('error', 'optx')}),
@@ -378,17 +697,8 @@ def main(outfile):
         L.append(body)
         L.append('')
     L.append('end Edzed.Gen.Tr')
-    text = '\n'.join(L) + '\n'
-    try:
-        with open(outfile, encoding='utf-8') as f:
-            if f.read() == text:
-                return
-    except FileNotFoundError:
-        pass
-    tmp = outfile + '.tmp'
-    with open(tmp, 'w', encoding='utf-8') as f:
-        f.write(text)
-    os.replace(tmp, outfile)
+    write_if_changed(outfile, '\n'.join(L) + '\n')
+    main_edit(os.path.join(os.path.dirname(outfile), 'TranslatedFilters.lean'))
 
 
 if __name__ == '__main__':
